@@ -37,6 +37,7 @@ func profileKnobs(profile string) knobs {
 		k.pDeviate, k.pSplit, k.pCancel, k.pDeadline, k.pCloseRace = 0.7, 0.5, 0.3, 0.1, 0.5
 		k.pDyn, k.pExtraResp = 0.1, 0.1
 		k.pCut = 0.2
+		k.pHSplit = 0.25
 	case "c06":
 		k.transports = []string{TInproc}
 		k.pMutate, k.pJunkDst, k.pCancel, k.pDeadline = 0.8, 0.5, 0.4, 0.1
